@@ -39,7 +39,7 @@ var c19Check = &impCheck{
 		rawOp{"CgoPreamble(one-line)", func(w *imp.World) { w.CgoPreamble("#include <a.h>") }},
 		rawOp{"CgoPreamble(multi-line)", func(w *imp.World) { w.CgoPreamble("int f(void);\nint g(void);") }}),
 	bfsDepth: [2]int{4, 5},
-	dev:      [2]int{3, 5},
+	dev:      [2]int{2, 5},
 	fams: []*family{
 		{name: "cgo", ctors: []string{"NewFile", "NewFilePathName"}, local: "l/p", paths: []string{"C", "b/C", "a/c", "fmt", "os", "x/y", "9fans.net/go", "B/b"},
 			names:   map[string]string{"b/C": "C", "a/c": "c", "C": "C", "x/y": "y"},
